@@ -529,44 +529,52 @@ PROPS = {
         "trusted": ["hook lib.rs verif::{set_yield_hook, yield_point} + 4 call sites (cfg pdb_verif)"],
     },
     "C11": {
-        "level_text": ("Lean model of the commit queue, commit overlay, the log worker's plan / publish steps, reader locks, the log "
-                       "worker's tree write locks, to_dereference / used_trees over a logical forest with claimed addresses, in two "
-                       "variants. Variant.current = the code as shipped: it is this variant that the driver command c11 executes against "
-                       "the crate (every commit / lock / unlock / process_commits / end_record step of the deterministic scenarios, the "
-                       "F4 / F4' / F13 / F4c schedules included, all observations compared). About current: negation witnesses "
-                       "C11_F4_counterexample (whole commit re-queued behind later ones and re-published: lost update), C11_order_false, "
-                       "C11_F4_insert_counterexample (re-queued {InsertTree B, DereferenceTree C} overtaken by DereferenceTree A: B "
-                       "dangling), C11_F13_counterexample (dereference planned under the tree write lock but published after its "
-                       "release: a reader's locked tree vanishes), C11_current_livelock (F4c: with no lock held three commits re-queue "
-                       "each other for every number of worker cycles); positive C11_order_partial, C11_order_current / C11_forest_current "
-                       "(ordinary keys AND roots / nodes equal the sequential run in commit-return order whenever no commit is postponed: "
-                       "decidable hypothesis noDeferral, satisfiable with readers on other trees), C11_locked_stable_current (a held lock "
-                       "protects root and every reachable node unless it was taken inside the F13 window inF13Window), "
-                       "C11_F13_window_only, C11_forest_published. Variant.patched = fixes/fix-c11-defer-order.diff (NOT applied, not "
-                       "executed against code; soundness of the proposed repair in the model): C11_order_patched, C11_forest_patched "
-                       "(final forest = tree events in publication order, which is the commit-return order with DereferenceTree events "
-                       "moved to the right only: DelayD), C11_forest_literal_false (the literal sequential statement is false and "
-                       "unwanted: late-lock schedule), C11_locked_stable, C11_released_completes, C11_released_completes_bounded "
-                       "(no lock held => publish + 2*queue worker cycles complete every postponed removal). C11_fuel_adequate: the "
-                       "depth bound of the model's dereference walk is exact once fuel >= height."),
-        "level_note": ("'Trees inserted meanwhile that reuse its nodes stay valid' is checked by the harness and on the F4' schedule, "
-                       "not proved in general (needs the client contract + reference-count correctness, C10). Pipeline collapsed to "
-                       "queue -> planned -> published (flush / enact do not affect order or lock timing; the harness emits `settle` "
-                       "lines that must not change any observation). Correspondence scope: transactions with inserts before "
-                       "dereferences, fresh tree keys, dereference only of published trees. The threaded scenario (kind 3) is oracle "
-                       "only. Trusted: Lean kernel, harness oracles (logical forest, commit-return-order map, yield-point stamps), "
-                       "hooks fixes/hook-c05.diff and fixes/f-c11/hook-c11.diff."),
+        "level_text": ("Lean model of the commit queue, commit overlay, the log worker's plan / publish steps, reader locks, the log worker's tr"
+                       "ee write locks, to_dereference / used_trees over a logical forest with claimed addresses, in three variants. Variant.cur"
+                       "rent = the code as shipped: it is this variant that the driver command c11 executes against the crate (every commit / lo"
+                       "ck / unlock / process_commits / end_record step of the deterministic scenarios, the F4 / F4' / F4c schedules and the pub"
+                       "lication-gap schedule included (lock / trylock / unlock ..), all observations compared). About current: negation witness"
+                       "es C11_F4_counterexample (whole commit re-queued behind later ones and re-published: lost update), C11_order_false, C11_"
+                       "F4_insert_counterexample (re-queued {InsertTree B, DereferenceTree C} overtaken by DereferenceTree A: B dangling), C11_F"
+                       "13_counterexample (dereference planned under the tree write lock but published after its release: a reader's locked tree"
+                       " vanishes), C11_current_livelock (F4c: with no lock held three commits re-queue each other for every number of worker cy"
+                       "cles); positive C11_order_partial, C11_order_current / C11_forest_current (ordinary keys AND roots / nodes equal the seq"
+                       "uential run in commit-return order whenever no commit is postponed: decidable hypothesis noDeferral, satisfiable with re"
+                       "aders on other trees), C11_locked_stable_current (a held lock protects root and every reachable node unless it was taken"
+                       " inside the F13 window inF13Window), C11_F13_window_only, C11_forest_published. Variant.patched = fixes/fix-c11-defer-or"
+                       "der.diff (NOT applied, not executed against code; soundness of the proposed repair in the model): C11_order_patched, C11"
+                       "_forest_patched (final forest = tree events in publication order, which is the commit-return order with DereferenceTree "
+                       "events moved to the right only: DelayD), C11_forest_literal_false (the literal sequential statement is false and unwante"
+                       "d: late-lock schedule), C11_locked_stable, C11_released_completes, C11_released_completes_bounded (no lock held => publi"
+                       "sh + 2*queue worker cycles complete every postponed removal). C11_fuel_adequate: the depth bound of the model's derefere"
+                       "nce walk is exact once fuel >= height. After fix 7cb3b4d (finding F13): C11_locked_stable_current is FULL (a held lock p"
+                       "rotects root and every reachable node, no side condition: the log worker keeps the write lock of every tree a planned co"
+                       "mmit dereferences until the record is published, invariant WInv), C11_no_lock_in_window (a tree whose removal is planned"
+                       " and unpublished is not read-locked and a reader's lock on it is not enabled); Variant.earlyUnlock = the code before the"
+                       " fix: negation witness C11_F13_counterexample, C11_locked_stable_outside_window / C11_F13_window_only for any variant; r"
+                       "eplayed once by hand against the crate with the fix reverted (0 disagreements); T0 obligation processCommits_tree_locks_"
+                       "until_published."),
+        "level_note": ("'Trees inserted meanwhile that reuse its nodes stay valid' is checked by the harness and on the F4' schedule, not proved"
+                       " in general (needs the client contract + reference-count correctness, C10). Pipeline collapsed to queue -> planned -> pu"
+                       "blished (flush / enact do not affect order or lock timing; the harness emits `settle` lines that must not change any obs"
+                       "ervation). Correspondence scope: transactions with inserts before dereferences, fresh tree keys, dereference only of pub"
+                       "lished trees. The threaded scenario (kind 3) is oracle only. Trusted: Lean kernel, harness oracles (logical forest, comm"
+                       "it-return-order map, yield-point stamps), hooks fixes/hook-c05.diff and fixes/f-c11/hook-c11.diff. Not modelled: used_tr"
+                       "ees computed by commit_changes while the log worker holds a tree's write lock (is_locked is true then): reachable only w"
+                       "ith two queued dereferences of one tree plus an insert committed in that window; it causes one spurious re-queue, nothin"
+                       "g is lost."),
         "lean": ["Pdb.Props.C11"],
         "harness": [{"cmd": "c11", "quick": 30, "thorough": 120, "model": True, "timeout": 3000}],
-        "rule": ("kind = seed % 5: 0 F4 exactly (1..3 later writers, 3 value sizes) or, for seed % 10 == 5, the re-queue livelock F4c "
-                 "(9..20 process_commits calls, reader handles kept or dropped); 1 locked-tree stability (DereferenceTree A and "
-                 "InsertTree B sharing A's subtrees in either order, 0..2 unrelated trees, pipeline stepped under the held guard, "
-                 "entry counts) or late lock; 2 insert+dereference transaction overtaken; 3 threaded reader / writer / pruner with "
-                 "background workers + watchdog + lone-postponed-commit prelude (CPU use, completion after unlock), every damage "
-                 "under a held lock classified by yield-point stamps (F13 sequence shown, else violation); 4 publication gap with "
-                 "the yield hook. Kinds 0, 1, 2, 4 emit one `c11` op line per action with the observed state (ordinary reads, "
-                 "readable roots, value entries, walk of every locked tree through its guard, deferral count) and end with the "
-                 "oracle's verdict; non-trivial = shared nodes > 0 / scenario reached"),
+        "rule": ("kind = seed % 5: 0 F4 exactly (1..3 later writers, 3 value sizes) or, for seed % 10 == 5, the re-queue livelock F4c (9.."
+                 "20 process_commits calls, reader handles kept or dropped); 1 locked-tree stability (DereferenceTree A and InsertTree B s"
+                 "haring A's subtrees in either order, 0..2 unrelated trees, pipeline stepped under the held guard, entry counts) or late "
+                 "lock; 2 insert+dereference transaction overtaken; 3 threaded reader / writer / pruner with background workers + watchdog"
+                 " + lone-postponed-commit prelude (CPU use, completion after unlock), every damage under a held lock is an oracle failure"
+                 " (with the F13 sequence shown by yield-point stamps when it is one); 4 publication gap with the yield hook: try_read ref"
+                 "used, a blocking read() on a probe thread is not granted while the worker is parked and is granted after the publication"
+                 ", the tree is then gone. Kinds 0, 1, 2, 4 emit one `c11` op line per action with the observed state (ordinary reads, rea"
+                 "dable roots, value entries, walk of every locked tree through its guard, deferral count) and end with the oracle's verdi"
+                 "ct; non-trivial = shared nodes > 0 / scenario reached"),
         "assumptions": ["clients reference existing nodes only while holding the read lock of a tree that reaches them"],
         "trusted": ["hook lib.rs verif::{set_yield_hook, yield_point} (cfg pdb_verif)",
                     "yield points process_commits.before_deferral_check / .deferred (fixes/f-c11/hook-c11.diff)"],
